@@ -1,7 +1,7 @@
 SPECIFICATION Spec
 CONSTANTS
   Versions <- MCVersions
-  Checkpoint <- MCCheckpoint
+  Checkpoints <- MCCheckpoints
   Stored <- Identity
 INVARIANTS OwnDatabaseOpens RecordsTheBinary VerifiedWhenDemanded
 PROPERTIES NeverDowngraded StartTerminates
